@@ -325,6 +325,17 @@ def _check(ctx, tmp):
         if st != 0 or not close(v, want_v):
             ctx.violation("conversion-first-in-process", e, repr(float(want_v)), "status=%r value=%r %s" % (st, v, err), how)
     ctx.cov["codes_that_also_spell_a_prefixed_unit"] = amb
+    # `to` is a keyword whenever no LETTER follows: a currency sign directly after it is the target (`5 usd to€` is `5 usd to €`)
+    for sign in ["$", "€", "£", "¥"]:
+        if U.lookup_unit(sign) is None:
+            continue
+        for amount in ("5 usd", "3€", "(7/2) gbp", "12.5 $"):
+            glued, spaced = "%s to%s" % (amount, sign), "%s to %s" % (amount, sign)
+            rg, rs = R.execute(glued), R.execute(spaced)
+            ctx.count("glued:" + glued, bucket="to + currency sign without a blank")
+            if rs["status"] == 0 and (rg["status"], rg["out"], rg["escaped"]) != (rs["status"], rs["out"], rs["escaped"]):
+                ctx.violation("conversion-glued:" + glued, glued, "as %r: %s" % (spaced, rs["out"].strip()), rg["out"].strip() or "status %s %s %s" % (rg["status"], rg["escaped"] or "", rg["err"].strip()[:80]),
+                              "execute(%r)" % glued)
 
     # ---- the real writer -> the real reader -> conversions use ITS rates
     def rand_word(n):
